@@ -53,7 +53,7 @@ LitFails(e) ==
        UNION {StrVariantFails(e, v, long) : v \in SeqToSet(e.variants)}
 
 Report(e, fails) ==
-  fails = {} \/ PrintT(<<"VERDICT", ToJson([idx |-> e.idx, id |-> e.id, variant |-> 0, fails |-> fails])>>)
+  fails = {} \/ PrintT(<<"VERDICT", ToJson([idx |-> e.idx, id |-> e.id, variant |-> 0, pos |-> IF Has(e, "pos") THEN e.pos ELSE "", fails |-> fails])>>)
 
 (* domain bookkeeping: where the specification's Valid and the real lexer disagree (counted, not an error) *)
 DomainNote(e) ==
